@@ -723,6 +723,24 @@ func genStageCases(op string) func(g *Gen, tier string, emit func(Case)) {
 			if tier == "thorough" && i%3 == 0 {
 				c["deep"] = true
 			}
+			if i%7 == 3 && flavour != 3 {
+				// src= names relative to the working directory of the run (not to the build root):
+				// such a case has at least one src= line
+				have := false
+				for _, o := range d.Ext {
+					have = have || o.P == "/"
+				}
+				if !have {
+					d.Ext = append(d.Ext, fobj{P: "/", T: "d", Mode: 0755, Mtime: 1500000001})
+				}
+				d.Ext = append(d.Ext, fobj{P: "/rel-payload", T: "f", Mode: 0640, Uid: 5, Mtime: 1500000002, Size: 100, Seed: int64(i)})
+				d.AddFiles = append(d.AddFiles, "file /opt/from-the-working-directory src=$EXT/rel-payload")
+				c["desc"] = d.toJSON()
+				c["relsrc"] = true
+			}
+			if i%4 == 1 {
+				c["outinroot"] = true // -o inside the build root, where a wildcard line looks
+			}
 			if _, deep := c["deep"]; i%5 == 2 && !deep { // (no compressor inside the build root)
 				// the stage of the running system: stagemaker runs chrooted into the build root
 				// with -root /
